@@ -29,12 +29,13 @@ ITEM_HARNESS = {
     'types::Token::get_name': ['rewrite', 'roundtrip'],
     'types::SourceMapIndex::lookup_token': ['index_flatten'], 'types::SourceMapSection::get_offset': ['index_flatten'],
     'hermes::SourceMapHermes::get_scope_for_token': ['hermes_scope'],
+    'decoder::decode_common': ['decode_document'], 'decoder::decode_index': ['index_flatten', 'decode_document'],
 }
 # property -> stand-ins that run on every check (parts of the property outside the verifier's reach so far)
 PROPERTY_BOUNDED = {
     'C01': ['roundtrip'], 'C03': ['raw_keys'], 'C08': ['index_flatten'], 'C09': ['rewrite', 'hermes_rewrite'],
     'C14': ['hermes_scope'], 'C13': ['root_setters', 'builder_model'], 'C07': ['rmi_roundtrip'], 'C12': ['header'], 'C04': ['ordering'],
-    'C10': ['adjust', 'adjust_dups'], 'C05': ['decode_extreme'], 'C15': ['sourceview'], 'C17': ['function_name'], 'C18': ['discover'], 'C19': ['relpath'], 'C20': ['ram_bundle'],
+    'C10': ['adjust', 'adjust_dups'], 'C05': ['decode_extreme'], 'C02': ['decode_document'], 'C15': ['sourceview'], 'C17': ['function_name'], 'C18': ['discover'], 'C19': ['relpath'], 'C20': ['ram_bundle'],
 }
 _results = {}
 _built = {}
